@@ -618,7 +618,25 @@ func cmdCheck(args []string) {
 			fatal2("replay of %s failed to run: %v", p, err)
 		}
 		if rep, _ := res["reproduced"].(bool); !rep {
-			fatal2("violation in %s did not reproduce in a fresh process (got %v): not reported", p, res["violation"])
+			// The run may depend on state that earlier runs of its worker process
+			// left in package-level variables of the code under test: retry as a
+			// sequence replay (re-execute that process's runs in order).
+			if _, ok := rf["sequence_from"]; ok || rf["sequence_stride"] != nil {
+				rf["sequence_replay"] = true
+				rf["decisions"] = []int{}
+				if h, _ := rf["orig_log_hash"].(string); h != "" {
+					rf["log_hash"] = h
+				}
+				b, _ := json.MarshalIndent(rf, "", " ")
+				os.WriteFile(p, b, 0o644)
+				res, _, err = runReplay(bin, p, scratch, false)
+				if err != nil {
+					fatal2("sequence replay of %s failed to run: %v", p, err)
+				}
+			}
+			if rep, _ := res["reproduced"].(bool); !rep {
+				fatal2("violation in %s did not reproduce in a fresh process (got %v): not reported", p, res["violation"])
+			}
 		}
 		if sh, _ := res["same_hash"].(bool); !sh {
 			fatal2("replay of %s reproduced the violation with a different event log hash: nondeterminism", p)
